@@ -1,13 +1,16 @@
 #!/usr/bin/env python3
 """Re-run the current checks against every stored seeded change.
 
-  tools/seed_recheck.py [name ...]
+  tools/seed_recheck.py [-j N] [name ...]
 
-For each /verif/seeded/<name>/ a scratch worktree of /repo at the commit the
-change was written against is created (outside /repo and /verif), the patch is
-applied, the property's quick check (plus any other check that caught it
-before) is run against that copy, the worktree is removed, and the result is
-stored in meta.json under verification.recheck.  /repo is never modified.
+For each /verif/seeded/<name>/ a scratch worktree of /repo is created (outside
+/repo and /verif): at the current HEAD if the patch still applies there,
+otherwise at the commit the change was written against (then defects repaired
+later are present in that copy as well and may be what the check reports -
+recorded as on_base).  The property's quick check (plus any other check that
+caught the change before) is run against that copy, the worktree is removed,
+and the result is stored in meta.json under verification.recheck.  /repo is
+never modified.
 """
 import json
 import os
@@ -16,6 +19,7 @@ import subprocess
 import sys
 import tempfile
 import time
+from concurrent.futures import ThreadPoolExecutor
 
 ROOT = os.path.dirname(os.path.dirname(os.path.abspath(__file__)))
 DEFAULT_BASE = {"a": "90f5b86", "b": "90f5b86"}
@@ -25,44 +29,60 @@ def sh(cmd, **kw):
     return subprocess.run(cmd, capture_output=True, text=True, **kw)
 
 
-def main():
-    names = sys.argv[1:] or sorted(os.listdir(os.path.join(ROOT, "seeded")))
-    summary = []
-    for name in names:
-        d = os.path.join(ROOT, "seeded", name)
-        meta = json.load(open(os.path.join(d, "meta.json")))
-        ver = meta.setdefault("verification", {})
-        prop = ver.get("property") or name.split("-")[0]
-        base = ver.get("repo_base") or DEFAULT_BASE.get(name[-1], "HEAD")
-        checks = sorted(set([prop] + list(ver.get("caught_by", []))))
+def one(name):
+    d = os.path.join(ROOT, "seeded", name)
+    meta = json.load(open(os.path.join(d, "meta.json")))
+    ver = meta.setdefault("verification", {})
+    prop = ver.get("property") or name.split("-")[0]
+    base = ver.get("repo_base") or DEFAULT_BASE.get(name[-1], "HEAD")
+    checks = sorted(set([prop] + list(ver.get("caught_by", []))))
+    patch = os.path.join(d, "patch.diff")
+    res, used = {}, None
+    for commit in ("HEAD", base):
         wt = tempfile.mkdtemp(prefix="seedre-")
         os.rmdir(wt)
         try:
-            r = sh(["git", "-C", "/repo", "worktree", "add", "-q", "--detach", wt, base])
-            assert r.returncode == 0, r.stderr
-            rp = sh(["git", "-C", wt, "apply", os.path.join(d, "patch.diff")])
-            assert rp.returncode == 0, rp.stderr
-            env = dict(os.environ, VERIF_REPO=wt,
+            r = sh(["git", "-C", "/repo", "worktree", "add", "-q", "--detach", wt,
+                    commit])
+            if r.returncode:
+                continue
+            if sh(["git", "-C", wt, "apply", patch]).returncode:
+                continue
+            used = commit
+            env = dict(os.environ, VERIF_REPO=wt, VERIF_WORKERS="4",
                        VERIF_EVIDENCE_DIR=os.path.join(wt, "_ev"),
                        VERIF_REPLAY_DIR=os.path.join(wt, "_rp"))
-            res = {}
             for c in checks:
                 rc = sh([os.path.join(ROOT, "check"), c, "--tier", "quick"], env=env,
                         timeout=3600)
                 keys = [l.strip()[4:].split(":")[0] for l in rc.stdout.splitlines()
                         if l.startswith("  key=")]
                 res[c] = {"exit": rc.returncode, "keys": keys[:5]}
-            ver["recheck"] = {"at": time.strftime("%F %T"), "base": base,
-                              "checks": res,
-                              "caught_by": [c for c, v in res.items() if v["exit"] == 1]}
-            summary.append((name, ver["recheck"]["caught_by"]))
+            break
         finally:
             sh(["git", "-C", "/repo", "worktree", "remove", "--force", wt])
             shutil.rmtree(wt, ignore_errors=True)
-        json.dump(meta, open(os.path.join(d, "meta.json"), "w"), indent=1)
-        print(name, "caught by", ver["recheck"]["caught_by"] or "NOTHING", flush=True)
-    missed = [n for n, c in summary if not c]
-    print("rechecked", len(summary), "missed:", missed)
+    ver["recheck"] = {"at": time.strftime("%F %T"), "applied_on": used,
+                      "on_base": used not in (None, "HEAD"), "checks": res,
+                      "caught_by": [c for c, v in res.items() if v["exit"] == 1]}
+    json.dump(meta, open(os.path.join(d, "meta.json"), "w"), indent=1)
+    print(name, "on", used, "caught by", ver["recheck"]["caught_by"] or "NOTHING",
+          {c: v["keys"][:1] for c, v in res.items()}, flush=True)
+    return name, ver["recheck"]["caught_by"], used
+
+
+def main():
+    args = sys.argv[1:]
+    jobs = 3
+    if args[:1] == ["-j"]:
+        jobs = int(args[1])
+        args = args[2:]
+    names = args or sorted(os.listdir(os.path.join(ROOT, "seeded")))
+    with ThreadPoolExecutor(jobs) as ex:
+        summary = list(ex.map(one, names))
+    missed = [n for n, c, _ in summary if not c]
+    print("rechecked", len(summary), "missed:", missed,
+          "on base:", [n for n, _, u in summary if u not in (None, "HEAD")])
     return 1 if missed else 0
 
 
